@@ -271,25 +271,55 @@ Definition folders_of (items : list item) : list (option str * option str) :=
                       | INonDict => []
                       end) items.
 
-(* _list_items_paginated: `while current_url:` *)
-Fixpoint list_items_paginated (E : env) (fuel : nat) (cur : option str) (path : str) : prog (list fmeta) :=
+(* _list_items_paginated: `seen_urls = set(); while current_url: if current_url in seen_urls: raise ...;
+   seen_urls.add(current_url); items, next_url = self._get_page(current_url)` *)
+Fixpoint list_items_paginated (E : env) (fuel : nat) (seen : list str) (cur : option str) (path : str)
+  : prog (list fmeta) :=
+  if truthy cur then
+    if mem_str (dflt cur) seen then Fail (RequestError None (dflt cur))      (* Pagination loop: nextLink repeats *)
+    else
+    match fuel with
+    | 0 => Fail OutOfFuel
+    | S f => ApiGet (dflt cur) (fun o =>
+               if o_ok o then
+                 bind (list_items_paginated E f (dflt cur :: seen) (o_next o) path)
+                      (fun r => Ret (files_of E path (o_value o) ++ r))
+               else Fail (RequestError None (dflt cur)))
+    end
+  else Ret [].
+
+(* _get_folders_from_url (same guard) *)
+Fixpoint get_folders (fuel : nat) (seen : list str) (cur : option str) : prog (list (option str * option str)) :=
+  if truthy cur then
+    if mem_str (dflt cur) seen then Fail (RequestError None (dflt cur))
+    else
+    match fuel with
+    | 0 => Fail OutOfFuel
+    | S f => ApiGet (dflt cur) (fun o =>
+               if o_ok o then bind (get_folders f (dflt cur :: seen) (o_next o)) (fun r => Ret (folders_of (o_value o) ++ r))
+               else Fail (RequestError None (dflt cur)))
+    end
+  else Ret [].
+
+(* _list_items_paginated_v0: `while current_url:` *)
+Fixpoint list_items_paginated_v0 (E : env) (fuel : nat) (cur : option str) (path : str) : prog (list fmeta) :=
   if truthy cur then
     match fuel with
     | 0 => Fail OutOfFuel
     | S f => ApiGet (dflt cur) (fun o =>
                if o_ok o then
-                 bind (list_items_paginated E f (o_next o) path) (fun r => Ret (files_of E path (o_value o) ++ r))
+                 bind (list_items_paginated_v0 E f (o_next o) path) (fun r => Ret (files_of E path (o_value o) ++ r))
                else Fail (RequestError None (dflt cur)))
     end
   else Ret [].
 
-(* _get_folders_from_url *)
-Fixpoint get_folders (fuel : nat) (cur : option str) : prog (list (option str * option str)) :=
+(* _get_folders_v0_from_url *)
+Fixpoint get_folders_v0 (fuel : nat) (cur : option str) : prog (list (option str * option str)) :=
   if truthy cur then
     match fuel with
     | 0 => Fail OutOfFuel
     | S f => ApiGet (dflt cur) (fun o =>
-               if o_ok o then bind (get_folders f (o_next o)) (fun r => Ret (folders_of (o_value o) ++ r))
+               if o_ok o then bind (get_folders_v0 f (o_next o)) (fun r => Ret (folders_of (o_value o) ++ r))
                else Fail (RequestError None (dflt cur)))
     end
   else Ret [].
@@ -325,8 +355,8 @@ Fixpoint walk (E : env) (fuel : nat) (site : str) (drive : option str) (oid : op
   | 0 => Fail OutOfFuel
   | S f =>
       let url := children_url E site drive oid in
-      bind (list_items_paginated E f (Some url) path) (fun files =>
-      bind (get_folders f (Some url)) (fun folders =>
+      bind (list_items_paginated E f [] (Some url) path) (fun files =>
+      bind (get_folders f [] (Some url)) (fun folders =>
       bind (walk_folders (walk E f site drive) path folders) (fun sub => Ret (files ++ sub))))
   end.
 
@@ -502,6 +532,16 @@ Definition list_files_filtered (E : env) (fuel : nat) (f : ffilter) (drive : opt
     | l => over_folders E fuel site f drive l
     end).
 
+(* list_files_created_since / list_files_modified_since: FileFilter(created_after|modified_after = since,
+   folder_paths = folder_paths or [], extensions = extensions or []) handed to list_files_filtered *)
+Definition since_filter (created : bool) (since : dt) (fps exts : list str) : ffilter :=
+  {| created_after := if created then Some since else None; created_before := None;
+     modified_after := if created then None else Some since; modified_before := None;
+     folder_paths := fps; path_patterns := []; extensions := exts |}.
+Definition list_files_since (E : env) (fuel : nat) (created : bool) (since : dt) (fps exts : list str)
+           (drive : option str) : prog (list fmeta) :=
+  list_files_filtered E fuel (since_filter created since fps exts) drive.
+
 (* ------------------------------------------------------------------ 5. simulated library and server *)
 Inductive node :=
 | File (f : fitem)
@@ -652,6 +692,20 @@ Fixpoint links_ok (P : paging) (n : node) : bool :=
   | _ => true
   end.
 
+Fixpoint nodup_str_pre (l : list str) : bool :=
+  match l with
+  | [] => true
+  | x :: r => negb (mem_str x r) && nodup_str_pre r
+  end.
+
+(* the urls of the pages of one folder listing are pairwise distinct (otherwise the client's loop guard fires) *)
+Fixpoint pages_ok (E : env) (site : str) (drive : option str) (P : paging) (n : node) : bool :=
+  match n with
+  | Folder _ i _ ch => nodup_str_pre (children_url E site drive i :: map snd (P i))
+                       && forallb (pages_ok E site drive P) ch
+  | _ => true
+  end.
+
 Fixpoint nodup_str (l : list str) : bool :=
   match l with
   | [] => true
@@ -662,6 +716,7 @@ Fixpoint nodup_str (l : list str) : bool :=
    every folder has a non-empty id, and the token endpoint is not one of the API urls *)
 Definition server_wf (E : env) (site : str) (drive : option str) (P : paging) (T : list node) : bool :=
   forallb ids_ok T && cuts_ok (P None) && forallb (links_ok P) T
+  && nodup_str_pre (children_url E site drive None :: map snd (P None)) && forallb (pages_ok E site drive P) T
   && nodup_str (token_url E :: map fst (server_table E site drive P T))
   && nonempty (base E).
 
